@@ -21,13 +21,23 @@ fn lookup(scenario: &str, property: &str) -> Option<Box<dyn Dyn>> {
     }
 }
 
+/// "libsim", or "libsim_ovf" when this binary was compiled with arithmetic overflow checks (the
+/// name ends up in replay files, so that a replay uses the same kind of build).
+fn engine_name() -> &'static str {
+    if cfg!(sim_overflow_checks) {
+        "libsim_ovf"
+    } else {
+        "libsim"
+    }
+}
+
 fn main() {
     simcore::panics::install_quiet_hook();
     let args: Vec<String> = std::env::args().collect();
     let code = match args.get(1).map(|s| s.as_str()) {
-        Some("run") => cmd_run("libsim", &args[2..], &lookup),
+        Some("run") => cmd_run(engine_name(), &args[2..], &lookup),
         Some("replay") => cmd_replay(&args[2..], &lookup),
-        Some("dump") => cmd_dump("libsim", &args[2..], &lookup),
+        Some("dump") => cmd_dump(engine_name(), &args[2..], &lookup),
         Some("selftest") => cmd_selftest(),
         _ => {
             eprintln!("usage: libsim run|replay|selftest ...");
